@@ -230,7 +230,7 @@ class Analysis:
                             self.stats["c16_order_checks_agent_finished_meanwhile"] += 1
                         if Lb is not None:
                             self.stats["c16_order_checks_agent_inflight"] += 1
-                            if L[0] > Lb[0]:
+                            if Lb < m.adapt(sid, c["dst"], L):
                                 self.add("C16", "controlled_sim_overtakes_agent", sim=sid, label=list(L),
                                          agent=c["dst"], agent_label=list(Lb), i=ev["i"])
                 # ---- C03 ---------------------------------------------------
